@@ -34,6 +34,9 @@ import common  # noqa: E402
 PROP = "C08"
 BUDGET_S = {"quick": 25, "thorough": 120}      # per exported model, all targets and bindings
 BIG_MODEL_BYTES = 16 << 20
+MAX_RUNTIME_BYTES = 400 << 20                  # larger exports are only checked statically
+MAX_TERM_CHARS = 6_000_000
+CORPUS_DEADLINE_S = {"quick": 170, "thorough": 1000}
 GEN_UNITS = ["GenShapes"]
 BINARY = ("Add", "Mul", "Sub", "Div", "Max", "Min", "Clip")
 
@@ -601,9 +604,12 @@ def validate_model(model_bytes, key, tier, seed):
     except Exception as e:  # noqa
         notes.append("main target: " + repr(e)[:200])
     try:
-        fts, skipped = _function_targets(m)
-        targets += fts
-        notes += [f"function {n} not run: {w}" for n, w in skipped]
+        if len(model_bytes) > BIG_MODEL_BYTES and tier == "quick":
+            notes.append(f"large model: {len(m.functions)} function bodies not run in the quick tier")
+        else:
+            fts, skipped = _function_targets(m)
+            targets += fts
+            notes += [f"function {n} not run: {w}" for n, w in skipped]
     except Exception as e:  # noqa
         notes.append("function targets: " + repr(e)[:200])
     t_start = time.time()
@@ -662,10 +668,11 @@ def _retarget_without_exposure(m, t):
 # ====================================================================== worker: export + snapshot + validate
 def _worker(job):
     """job = (kind, ident, overrides, tier, seed) -> result dict (picklable)"""
-    kind, ident, over, tier, seed = job
+    kind, ident, over, tier, seed = job[:5]
+    keep_model = len(job) > 5 and job[5]
     os.environ.setdefault("JAX_PLATFORMS", "cpu")
     import exports
-    res = {"key": None, "error": None, "model": None, "post": None, "val": None}
+    res = {"key": None, "error": None, "model": None, "post": None, "val": None, "term": None}
     snaps = []
     try:
         import jax2onnx.user_interface as ui
@@ -694,7 +701,8 @@ def _worker(job):
                 m = to_onnx(fn, spec, **dict(over))
         finally:
             ui.postprocess_ir_model = real
-        res["model"] = m.SerializeToString()
+        blob = m.SerializeToString()
+        res["model_size"] = len(blob)
     except Exception as e:  # noqa
         if res["key"] is None:
             res["key"] = str(ident)
@@ -707,9 +715,21 @@ def _worker(job):
     except Exception as e:  # noqa
         res["post"] = {"error": repr(e)[:300]}
     try:
-        res["val"] = validate_model(res["model"], res["key"], tier, seed)
+        import onnx2coq
+        t = onnx2coq.model_term(m)
+        res["term"] = t if len(t) < MAX_TERM_CHARS else None
+    except Exception as e:  # noqa
+        res["term_error"] = repr(e)[:200]
+    del m
+    try:
+        if len(blob) > MAX_RUNTIME_BYTES:
+            res["val"] = {"skipped": f"model of {len(blob) >> 20} MiB not executed"}
+        else:
+            res["val"] = validate_model(blob, res["key"], tier, seed)
     except Exception as e:  # noqa
         res["val"] = {"error": traceback.format_exc()[-600:]}
+    if keep_model:
+        res["model"] = blob
     return res
 
 
@@ -725,24 +745,42 @@ def _init_worker():
     logging.disable(logging.CRITICAL)
 
 
-def run_corpus(n_registry, seed, tier, overrides=None, procs=None, extras=True, own=True, indices=None):
+def run_corpus(n_registry, seed, tier, overrides=None, procs=None, extras=True, own=True, indices=None, deadline_s=None):
+    """exports + snapshots + run-time validation in SPAWNED workers; jobs that are not finished at the deadline are
+    reported as such (never judged)"""
     from multiprocessing import get_context
     import exports
     overrides = overrides or {}
-    procs = procs or min(14, os.cpu_count() or 4)
+    procs = procs or min(10, os.cpu_count() or 4)
+    deadline_s = deadline_s or CORPUS_DEADLINE_S.get(tier, 300)
     here = os.path.dirname(os.path.abspath(__file__))
     pp = os.environ.get("PYTHONPATH", "")
     if here not in pp.split(":"):
         os.environ["PYTHONPATH"] = here + (":" + pp if pp else "")
-    with get_context("spawn").Pool(procs, initializer=_init_worker) as p:
-        total = p.apply(_count, (0,))
+    pool = get_context("spawn").Pool(procs, initializer=_init_worker, maxtasksperchild=25)
+    out = []
+    try:
+        total = pool.apply(_count, (0,))
         idx = indices if indices is not None else exports.select_indices(total, n_registry, seed)
-        jobs = [("reg", i, overrides, tier, seed) for i in idx]
-        if extras:
-            jobs += [("extra", n, overrides, tier, seed) for n in exports.extra_names()]
+        jobs = []
         if own:
             jobs += [("own", n, overrides, tier, seed) for n in own_names()]
-        return p.map(_worker, jobs, chunksize=max(1, len(jobs) // (procs * 6)))
+        if extras:
+            jobs += [("extra", n, overrides, tier, seed) for n in exports.extra_names()]
+        jobs += [("reg", i, overrides, tier, seed) for i in idx]
+        t0 = time.time()
+        pending = [(j, pool.apply_async(_worker, (j,))) for j in jobs]
+        for j, a in pending:
+            left = deadline_s - (time.time() - t0)
+            try:
+                out.append(a.get(timeout=max(0.05, left)))
+            except Exception as e:  # noqa  (multiprocessing.TimeoutError or a worker that died)
+                out.append({"key": f"{j[0]}#{j[1]}", "error": None, "unfinished": f"{type(e).__name__}", "post": None, "val": None,
+                            "term": None, "model": None})
+    finally:
+        pool.terminate()
+        pool.join()
+    return out
 
 
 # ====================================================================== (a) ties: translated / hand models vs the running Python
@@ -793,6 +831,28 @@ def _shape_dims_of(shape):
     return None if shape is None else tuple(ir.Shape(list(shape)).dims)
 
 
+PENDING = []          # deferred Coq evaluations: (name, typ, items, check, per_file, finish)
+
+
+def defer_cases(name, typ, items, check, finish, per_file=450):
+    PENDING.append((name, typ, items, check, per_file, finish))
+
+
+def flush_cases(ctx):
+    """run all deferred case files concurrently, then call every finish(ok, bad, log)"""
+    from concurrent.futures import ThreadPoolExecutor
+    todo = list(PENDING)
+    del PENDING[:]
+    with ThreadPoolExecutor(max_workers=4) as ex:
+        futs = [ex.submit(eval_cases, ctx, n, t, it, ch, pf) for (n, t, it, ch, pf, _f) in todo]
+        for (n, _t, _it, _ch, _pf, fin), fu in zip(todo, futs):
+            try:
+                ok, bad, log = fu.result()
+            except Exception:  # noqa
+                ok, bad, log = False, [], traceback.format_exc()[-800:]
+            fin(ok, bad, log)
+
+
 def eval_cases(ctx, name, typ, items, check, per_file=450):
     """items: Gallina texts of type `typ`; check: Gallina predicate `typ -> bool`.  Returns (ok, bad indices, log)"""
     def render(chunk, off):
@@ -827,7 +887,7 @@ def tie_translated(ctx):
     from jax2onnx.converter import ir_optimizations as opt
     from jax2onnx.converter import ir_postprocess as post
     rng = ctx.rng
-    n_rand = 1200 if ctx.tier == "quick" else 6000
+    n_rand = 400 if ctx.tier == "quick" else 6000
     # ---- _broadcast_shape_dims: all pairs of shapes up to rank 2, all triples of rank-1 shapes, random up to rank 3
     sh2 = _all_shapes(2)
     sh3 = _all_shapes(3)
@@ -842,22 +902,25 @@ def tie_translated(ctx):
         r = opt._broadcast_shape_dims(dims)
         py.append(r)
         items.append("(" + "[" + "; ".join(enc_dims(d) for d in dims) + "], " + enc_odims(r) + ")")
-    ok, bad, log = eval_cases(ctx, "c08_bsd", "list (list dim) * option (list dim)", items,
-                              "fun c => odims_eqb_ (broadcast_shape_dims (fst c)) (snd c)")
-    ctx.oblige(f"tie:translated-_broadcast_shape_dims-equals-python({len(items)} cases)", ok and not bad, "tie",
-               log if not ok else ("" if not bad else f"differ on {[ (combos[i], str(py[i])) for i in bad[:4]]}"))
+    defer_cases("c08_bsd", "list (list dim) * option (list dim)", items,
+                "fun c => odims_eqb_ (broadcast_shape_dims (fst c)) (snd c)",
+                lambda ok, bad, log: ctx.oblige(
+                    f"tie:translated-_broadcast_shape_dims-equals-python({len(items)} cases)", ok and not bad, "tie",
+                    log if not ok else ("" if not bad else f"differ on {[(combos[i], str(py[i])) for i in bad[:4]]}")), per_file=900)
     n_some = sum(1 for r in py if r is not None)
     distinct = len({(tuple(map(tuple, c)), str(r)) for c, r in zip(combos, py)})
     # ---- _dim_token equality, _dim_is_known, _normalize_dim on every dim kind (incl. the empty symbol)
     dpool = [_shape_dims_of((d,))[0] for d in [0, 1, 2, 3, 7, "B", "C", "", None]]
     it_tok = [f"({enc_dim(a)}, {enc_dim(b)}, {common.blit(opt._dim_token(a) == opt._dim_token(b))})" for a in dpool for b in dpool]
-    ok1, bad1, log1 = eval_cases(ctx, "c08_tok", "dim * dim * bool", it_tok,
-                                 "fun c => let '(a, b, r) := c in Bool.eqb (tok_eqb (dim_token a) (dim_token b)) r")
+    defer_cases("c08_tok", "dim * dim * bool", it_tok,
+                "fun c => let '(a, b, r) := c in Bool.eqb (tok_eqb (dim_token a) (dim_token b)) r",
+                lambda ok, bad, log: ctx.oblige(f"tie:translated-_dim_token-equality-equals-python({len(it_tok)} dim pairs)", ok and not bad, "tie",
+                                                log if not ok else f"bad {bad[:5]}"))
     it_known = [f"({enc_dim(a)}, {common.blit(post._dim_is_known(a))}, {enc_dim(_shape_dims_of((post._normalize_dim(a),))[0])})" for a in dpool]
-    ok2, bad2, log2 = eval_cases(ctx, "c08_known", "dim * bool * dim", it_known,
-                                 "fun c => let '(a, k, n) := c in Bool.eqb (dim_is_known a) k && dim_eqb_ (normalize_dim a) n")
-    ctx.oblige(f"tie:translated-_dim_token/_dim_is_known/_normalize_dim-equal-python({len(it_tok) + len(it_known)} cases)",
-               ok1 and ok2 and not bad1 and not bad2, "tie", (log1 + log2) if not (ok1 and ok2) else f"bad {bad1[:5]} {bad2[:5]}")
+    defer_cases("c08_known", "dim * bool * dim", it_known,
+                "fun c => let '(a, k, n) := c in Bool.eqb (dim_is_known a) k && dim_eqb_ (normalize_dim a) n",
+                lambda ok, bad, log: ctx.oblige(f"tie:translated-_dim_is_known/_normalize_dim-equal-python({len(it_known)} dim kinds)", ok and not bad, "tie",
+                                                log if not ok else f"bad {bad[:5]}"))
     # ---- _unknown_shape_like on values carrying every shape up to rank 3, both modes, and a value without shape
     it_usl = []
     for s in [None] + sh3:
@@ -865,10 +928,10 @@ def tie_translated(ctx):
             v = ir.Value(name="v", type=ir.TensorType(ir.DataType.FLOAT), shape=None if s is None else ir.Shape(list(s)))
             r = post._unknown_shape_like(v, force_rank_only=force)
             it_usl.append(f"({enc_odims(_shape_dims_of(s))}, {common.blit(force)}, {enc_odims(None if r is None else tuple(r.dims))})")
-    ok3, bad3, log3 = eval_cases(ctx, "c08_usl", "option (list dim) * bool * option (list dim)", it_usl,
-                                 "fun c => let '(d, f, r) := c in odims_eqb_ (unknown_shape_like d f) r")
-    ctx.oblige(f"tie:translated-_unknown_shape_like-equals-python({len(it_usl)} cases)", ok3 and not bad3, "tie",
-               log3 if not ok3 else f"bad {bad3[:5]}")
+    defer_cases("c08_usl", "option (list dim) * bool * option (list dim)", it_usl,
+                "fun c => let '(d, f, r) := c in odims_eqb_ (unknown_shape_like d f) r",
+                lambda ok, bad, log: ctx.oblige(f"tie:translated-_unknown_shape_like-equals-python({len(it_usl)} cases)", ok and not bad, "tie",
+                                                log if not ok else f"bad {bad[:5]}"), per_file=600)
     ctx.coverage["tie_translated"] = {"broadcast_cases": len(items), "broadcast_defined": n_some, "broadcast_distinct": distinct,
                                       "token_pairs": len(it_tok), "dim_kinds": len(it_known), "unknown_shape_like_cases": len(it_usl)}
     return len(items) + len(it_tok) + len(it_known) + len(it_usl), distinct
@@ -919,7 +982,7 @@ def tie_refresh(ctx, skip):
         for b in pool:
             for out in (None, (7, 7)):
                 cases.append(("Add", [a, b], out))
-    for _ in range(500 if ctx.tier == "quick" else 3000):
+    for _ in range(300 if ctx.tier == "quick" else 3000):
         cases.append((rng.choice(["Max", "Min", "Clip"]), [rng.choice(pool) for _ in range(3)], rng.choice([None, (7,), (1, 7)])))
     for a in pool:
         cases.append(("Relu", [a], (5,)))
@@ -932,11 +995,13 @@ def tie_refresh(ctx, skip):
         if scal != model_scal:
             scal_bad.append((op, operands, scal))
         items.append("([" + "; ".join(enc_operand(k, s) for k, s in operands) + "], " + enc_odims(_shape_dims_of(out)) + ", " + enc_odims(r) + ")")
-    ok, bad, log = eval_cases(ctx, "c08_refresh", "list operand * option (list dim) * option (list dim)", items,
-                              f"fun c => let '(ins, out, r) := c in odims_eqb_ (refresh_gen {common.blit(skip)} ins out) r")
-    ctx.oblige(f"tie:model-refresh_gen({'unchanged' if skip else 'repaired'})-equals-_refresh_elementwise_output_shape({len(items)} nodes)",
-               ok and not bad and not scal_bad, "tie",
-               log if not ok else (f"differ on {[(cases[i], str(exp[i])) for i in bad[:4]]}; is_scalar_const differs on {scal_bad[:3]}" if (bad or scal_bad) else ""))
+    defer_cases("c08_refresh", "list operand * option (list dim) * option (list dim)", items,
+                f"fun c => let '(ins, out, r) := c in odims_eqb_ (refresh_gen {common.blit(skip)} ins out) r",
+                lambda ok, bad, log: ctx.oblige(
+                    f"tie:model-refresh_gen({'unchanged' if skip else 'repaired'})-equals-_refresh_elementwise_output_shape({len(items)} nodes)",
+                    ok and not bad and not scal_bad, "tie",
+                    log if not ok else (f"differ on {[(cases[i], str(exp[i])) for i in bad[:4]]}; is_scalar_const differs on {scal_bad[:3]}"
+                                        if (bad or scal_bad) else "")), per_file=700)
     del n_false
     return len(items)
 
@@ -947,7 +1012,7 @@ def tie_loosen(ctx):
     rng = ctx.rng
     shapes = [None, (), (3,), ("B",), (None,), (2, 3), ("B", 3), (None, "C"), (2, 1, 3)]
     items = []
-    n = 300 if ctx.tier == "quick" else 1500
+    n = 160 if ctx.tier == "quick" else 1500
     changed = 0
     for k in range(n):
         force = bool(k % 2)
@@ -972,29 +1037,16 @@ def tie_loosen(ctx):
         produced = ["a", "b", "c"] + (["w"] if force else [])
         enc_t = lambda t: "[" + "; ".join(f"({_cq(nm)}, {enc_odims(s)})" for nm, s in t.items()) + "]"  # noqa: E731
         items.append(f"([{'; '.join(_cq(i) for i in io)}], [{'; '.join(_cq(i) for i in produced)}], {common.blit(force)}, {enc_t(before)}, {enc_t(after)})")
-    ok, bad, log = eval_cases(ctx, "c08_loosen", "list string * list string * bool * list (string * option (list dim)) * list (string * option (list dim))",
-                              items, "fun c => let '(io, pr, f, t0, t1) := c in forallb (fun kv => odims_eqb_ (loosen io pr f (tbl_ t0) (fst kv)) (snd kv)) t1",
-                              per_file=150)
-    ctx.oblige(f"tie:model-loosen-equals-_loosen_graph_value_shapes({len(items)} graphs, {changed} changed)", ok and not bad and changed > 0, "tie",
-               log if not ok else f"bad {bad[:5]}")
+    defer_cases("c08_loosen", "list string * list string * bool * list (string * option (list dim)) * list (string * option (list dim))",
+                items, "fun c => let '(io, pr, f, t0, t1) := c in forallb (fun kv => odims_eqb_ (loosen io pr f (tbl_ t0) (fst kv)) (snd kv)) t1",
+                lambda ok, bad, log: ctx.oblige(f"tie:model-loosen-equals-_loosen_graph_value_shapes({len(items)} graphs, {changed} changed)",
+                                                ok and not bad and changed > 0, "tie", log if not ok else f"bad {bad[:5]}"), per_file=200)
     return len(items)
 
 
 # ====================================================================== Coq checker on the converted exports
-def coq_annot_consistent(ctx, models):
-    """models: [(key, ModelProto bytes)] -> {key: (consistent, offenders, rule_applies, derived)}"""
-    import onnx
-    import onnx2coq
-    terms = []
-    for key, blob in models:
-        m = onnx.ModelProto()
-        m.ParseFromString(blob)
-        try:
-            terms.append((key, onnx2coq.model_term(m)))
-        except Exception as e:  # noqa
-            terms.append((key, None))
-            ctx.assumptions.append(f"onnx2coq failed on {key}: {e!r}"[:200])
-    terms = [t for t in terms if t[1] is not None]
+def coq_annot_consistent(ctx, terms):
+    """terms: [(key, Gallina omodel term)] -> {key: (consistent, offenders, rule_applies, derived)}"""
     header = ("From Coq Require Import ZArith String List Bool.\nFrom J2O Require Import Onnx Annot.\nImport ListNotations.\n"
               "Set Printing Width 1000000.\nSet Printing Depth 1000000.\n")
 
@@ -1055,6 +1107,10 @@ def run(ctx):
         evals += tie_loosen(ctx)
     except Exception:  # noqa
         ctx.oblige("tie:loosen-model", False, "tie", traceback.format_exc()[-1500:])
+    try:
+        flush_cases(ctx)
+    except Exception:  # noqa
+        ctx.oblige("tie:coq-evaluation", False, "tie", traceback.format_exc()[-1500:])
     ctx.coverage["refresh_model_in_force"] = "unchanged tree: one-element constants of any rank are skipped" if skip else \
         "repaired: one-element constants take part in the broadcast"
 
@@ -1068,7 +1124,7 @@ def run(ctx):
             ctx.assumptions.append("refresh witness through optimize_graph could not be replayed: " + traceback.format_exc()[-300:])
 
     # ---- (b) + (c) on real exports
-    n_reg = 110 if ctx.tier == "quick" else 700
+    n_reg = 70 if ctx.tier == "quick" else 600
     t0 = time.time()
     results = run_corpus(n_reg, ctx.seed, ctx.tier)
     t_corpus = time.time() - t0
@@ -1078,7 +1134,7 @@ def run(ctx):
         report_corpus(ctx, r2, "x64")
     ctx.coverage["corpus_wall_s"] = round(t_corpus, 1)
     # ---- proved checker inside Coq on the converted exports
-    models = [(r["key"], r["model"]) for r in results if r.get("model") and len(r["model"]) < (64 << 20)]
+    models = [(r["key"], r["term"]) for r in results if r.get("term")]
     t0 = time.time()
     ok, verdicts = coq_annot_consistent(ctx, models)
     ctx.oblige(f"coq:annot_consistent-evaluated-on-exports({len(verdicts)}/{len(models)})", ok and len(verdicts) == len(models), "tie",
@@ -1144,6 +1200,8 @@ def report_corpus(ctx, results, label):
     seen_keys = set()
     n_val = 0
     failed_runs = []
+    unfinished = [r["key"] for r in results if r.get("unfinished")]
+    not_run = []
     for r in results:
         key = r["key"]
         p = r.get("post")
@@ -1167,6 +1225,9 @@ def report_corpus(ctx, results, label):
             continue
         if "error" in v:
             ctx.oblige(f"runtime-validation:{key}", False, "tie", v["error"])
+            continue
+        if "skipped" in v:
+            not_run.append(f"{key}: {v['skipped']}")
             continue
         n_val += 1
         for k, x in v["stats"].items():
@@ -1196,7 +1257,8 @@ def report_corpus(ctx, results, label):
                         {"kind": "export", "case": key, "value": actual})
     ops = tot.pop("ops")
     cov = ctx.coverage
-    cov[f"exports_{label}"] = {"cases": len(results), "export_errors": len(errs), "validated": n_val, **tot,
+    cov[f"exports_{label}"] = {"cases": len(results), "export_errors": len(errs), "validated": n_val,
+                               "unfinished_at_deadline": len(unfinished), "unfinished_samples": unfinished[:5], "not_executed": not_run[:5], **tot,
                                "producer_ops_seen": len(ops), "top_ops": sorted(ops.items(), key=lambda kv: -kv[1])[:25],
                                "failed_run_samples": failed_runs[:5]}
     cov[f"postprocess_{label}"] = post_tot
